@@ -40,6 +40,10 @@ def shards(tier):
         dbs3 = list(scopes.databases(max_db, U3))
         dbs3.sort(key=lambda d: (hash(d) % 9973, d))
         out += [{"dbs": chunk, "tier": tier, "version": version} for chunk in scopes.chunks(dbs3, 16)]
+    # multi-octet sub-identifiers (numeric order and order of the encoded
+    # octets differ)
+    dbsm = list(scopes.databases(3 if tier == "quick" else 4, scopes.UM))
+    out += [{"dbs": chunk, "tier": tier, "version": "v2c", "uni": "M"} for chunk in scopes.chunks(dbsm, 8)]
     return out
 
 
@@ -49,10 +53,10 @@ def creds():
     return V2C("public")
 
 
-def walk_case(db_idx, roots, api, client=None, version="v2c"):
+def walk_case(db_idx, roots, api, client=None, version="v2c", uni=None):
     """Run one walk; -> (result tuple, exception, n_requests, violations)"""
     if version == "v2c":
-        db = scopes.db_from_indices(db_idx)
+        db = scopes.db_from_indices(db_idx, scopes.UM) if uni == "M" else scopes.db_from_indices(db_idx)
         ag = ragent.Agent(db)
     else:
         from ..clock import CLOCK
@@ -155,9 +159,13 @@ def run_shard(params, acc):
     b = bounds(tier)
     lists = scopes.root_lists(b["max_roots"])
     version = params.get("version", "v2c")
+    uni = params.get("uni")
     if version == "v2c":
         client, _ = world.make_client(creds(), lambda p: b"")
         universe = scopes.U
+        if uni == "M":
+            universe = scopes.UM
+            lists = scopes.root_lists(3, scopes.ROOTS_M)
     else:
         from ..clock import CLOCK
 
@@ -179,7 +187,7 @@ def run_shard(params, acc):
                 if len(roots) == 1:
                     apis.append("pywalk")
             for api in apis:
-                result, exc, nreq, violations = walk_case(db_idx, roots, api, client, version)
+                result, exc, nreq, violations = walk_case(db_idx, roots, api, client, version, uni)
                 nontrivial = 1 if (nreq >= 2 and result) else 0
                 acc.count(evaluations=1, nontrivial=nontrivial, states=nreq + 1, transitions=nreq, traces=1)
                 acc.outcome("ok" if not violations else violations[0]["kind"])
@@ -189,7 +197,7 @@ def run_shard(params, acc):
                         interesting=len(roots) > 1 and nreq > 2,
                     )
                 for v in violations:
-                    v["case"] = {"db": list(db_idx), "roots": [list(r) for r in roots], "api": api, "version": version}
+                    v["case"] = {"db": list(db_idx), "roots": [list(r) for r in roots], "api": api, "version": version, "uni": uni}
                     acc.violation(v)
                 if api == "multiwalk" and exc is None and result is not None:
                     key = frozenset(roots)
@@ -203,7 +211,7 @@ def run_shard(params, acc):
                                 "kind": "order-dependent",
                                 "detail": {**facts, "got": sorted(got), "other_got": sorted(other[0])},
                                 "facts": facts,
-                                "case": {"db": list(db_idx), "roots": [list(r) for r in roots], "api": api, "version": version, "other_roots": [list(r) for r in other[1]]},
+                                "case": {"db": list(db_idx), "roots": [list(r) for r in roots], "api": api, "version": version, "uni": uni, "other_roots": [list(r) for r in other[1]]},
                             }
                         )
                     by_set.setdefault(key, (got, roots))
@@ -218,10 +226,11 @@ def replay(case):
 
         CLOCK.reset()
         world.reset_plugins()
-    result, exc, nreq, violations = walk_case(db_idx, roots, case["api"], None, version)
+    uni = case.get("uni")
+    result, exc, nreq, violations = walk_case(db_idx, roots, case["api"], None, version, uni)
     if "other_roots" in case:
         other = tuple(tuple(r) for r in case["other_roots"])
-        r2, e2, _, _ = walk_case(db_idx, other, case["api"], None, version)
+        r2, e2, _, _ = walk_case(db_idx, other, case["api"], None, version, uni)
         if exc is None and e2 is None and frozenset(o for o, _ in result) != frozenset(o for o, _ in r2):
             violations.append({"kind": "order-dependent", "detail": {"got": result, "other_got": r2}})
     return violations
@@ -231,7 +240,7 @@ def meta(tier):
     b = bounds(tier)
     return {
         "level": "model_checking",
-        "rule": "one execution per configuration (database subset of the 15-instance universe with |DB| <= %d) x (every ordered list of 1..3 pairwise disjoint roots from an 9-root menu) x API (multiwalk; walk for single roots; PyWrapper variants for |DB| <= %d); v2c, and SNMPv3 %r on the universe extended by the six usmStats counter instances; states = (configuration, exchange index) pairs, transitions = request/response exchanges; non-trivial = at least two requests and at least one instance yielded"
+        "rule": "one execution per configuration (database subset of the 15-instance universe with |DB| <= %d) x (every ordered list of 1..3 pairwise disjoint roots from an 9-root menu) x API (multiwalk; walk for single roots; PyWrapper variants for |DB| <= %d); v2c, and SNMPv3 %r on the universe extended by the six usmStats counter instances; a second universe of 10 instances / 4 roots with sub-identifiers at the base-128 boundaries (127|128, 16383|16384, 300 vs 16385); states = (configuration, exchange index) pairs, transitions = request/response exchanges; non-trivial = at least two requests and at least one instance yielded"
         % (b["max_db"], b["py_max_db"], b["v3"]),
         "exhaustive": True,
         "bounds": b,
